@@ -7,8 +7,8 @@ package t_api
 
 // String is total on every status the kernel defines (it panics on anything else).
 //@ func (StatusCode).String
-//@ props C13 C15
-//@ nopanic C13 C15
+//@ props C13 C15 C12
+//@ nopanic C13 C15 C12
 //@ opaque
 //@ requires kstatus.any(s)
 
